@@ -316,7 +316,9 @@ CCall(qe, q) ==
             \cup UNION {FrameBad(got[x], x) : x \in 1..(IF Len(got) < total THEN Len(got) ELSE total)}
             \* after the terminal nothing more can come: a short sequence is wrong for good
             \cup (IF Len(got) < total /\ Term # {} THEN {V({"C19"}, "call-output-incomplete", q)} ELSE {})
-            \cup (IF Len(got) < total /\ Term = {} /\ settled THEN {V({"C19"}, "missing-call-output", q)} ELSE {})
+            \* (a definition made before a restart that no longer answers is also a C17 matter)
+            \cup (IF Len(got) < total /\ Term = {} /\ settled
+                  THEN {V(IF F[d].inc < j THEN {"C19", "C17"} ELSE {"C19"}, "missing-call-output", q)} ELSE {})
             \cup (IF k.cat THEN UNION {
                     LET x == F[o].c.x  xs == {x[y] : y \in 1..Len(x)}  m == MaxOr(xs, 0)  dc == F[d].ctx IN
                       (IF \E y \in xs : y < 1 \/ F[y].ctx # dc THEN {V({"C06"}, "cat-foreign-context", o)} ELSE {})
